@@ -63,6 +63,7 @@ type Step struct {
 type Case struct {
 	NPages int    `json:"npages"`
 	File   string `json:"file"` // ok | missing | truncated | wrongext
+	Blank  []int  `json:"blank,omitempty"` // 1-based pages without any content (never all of them)
 	Steps  []Step `json:"steps"`
 }
 
@@ -72,10 +73,22 @@ var words = []string{"alpha", "bravo", "charlie", "delta", "echo", "foxtrot", "g
 
 func marker(p int, which string) string { return words[p-1] + which } // p is 1-based
 
-func buildPDF(n int) []byte {
+func (c Case) blank() map[int]bool {
+	m := map[int]bool{}
+	for _, p := range c.Blank {
+		m[p] = true
+	}
+	return m
+}
+
+func buildPDF(n int, blank map[int]bool) []byte {
 	doc := pdfw.Doc{Fonts: []pdfw.FontSpec{{Res: "F1", Kind: "t1win", Base: "Helvetica"}}}
 	for p := 1; p <= n; p++ {
 		pg := pdfw.Page{ID: p, MediaBox: [4]float64{0, 0, 612, 792}}
+		if blank[p] {
+			doc.Pages = append(doc.Pages, pg)
+			continue
+		}
 		// body band only (>= 100 pt from the page edges), positions differ from page to page
 		for k, which := range []string{"top", "mid", "bot"} {
 			txt := marker(p, which)
@@ -298,8 +311,14 @@ func pagesIn(s string, n int) []int {
 }
 
 // groundTruth checks a successful terminal result against the markers.
-func groundTruth(op string, r result, sel []int, n int) error {
+func groundTruth(op string, r result, selAll []int, n int, blank map[int]bool) error {
 	js, _ := json.Marshal(r.Value)
+	var sel []int // the selected pages that carry text
+	for _, p := range selAll {
+		if !blank[p] {
+			sel = append(sel, p)
+		}
+	}
 	switch op {
 	case "text":
 		s := r.Value.(string)
@@ -341,6 +360,24 @@ func groundTruth(op string, r result, sel []int, n int) error {
 			Text   string
 		}
 		_ = json.Unmarshal(js, &pgs)
+		if len(blank) > 0 {
+			// blank pages may or may not be presented as empty pages; those presented must be selected blank pages
+			kept := pgs[:0:0]
+			for _, pg := range pgs {
+				if strings.TrimSpace(pg.Text) != "" {
+					kept = append(kept, pg)
+					continue
+				}
+				ok := false
+				for _, p := range selAll {
+					ok = ok || (p == pg.Number && blank[p])
+				}
+				if !ok {
+					return fmt.Errorf("Document() has an empty page numbered %d; the blank pages of the selection %v are %v", pg.Number, selAll, blank)
+				}
+			}
+			pgs = kept
+		}
 		if len(pgs) != len(sel) {
 			return fmt.Errorf("Document() has %d pages, selection %v", len(pgs), sel)
 		}
@@ -382,7 +419,9 @@ func checkCase(c Case) error {
 		return fmt.Errorf("INFRA: %v", err)
 	}
 	defer os.RemoveAll(dir)
-	pdf := buildPDF(c.NPages)
+	blank := c.blank()
+	pdf := buildPDF(c.NPages, blank)
+	pageText := map[string]string{} // options + page -> Text() of that page alone
 	path := filepath.Join(dir, "doc.pdf")
 	switch c.File {
 	case "missing":
@@ -469,8 +508,42 @@ func checkCase(c Case) error {
 						if got.Err {
 							return fmt.Errorf("%s: failed for the valid selection %v", where, sel)
 						}
-						if err := groundTruth(st.Op, got, sel, c.NPages); err != nil {
+						if err := groundTruth(st.Op, got, sel, c.NPages, blank); err != nil {
 							return fmt.Errorf("%s (config %+v): %v", where, cf.calls, err)
+						}
+						// exactly the per-page results: without the exclusion options (which look at the whole document)
+						// the text of a selection is the text of each of its pages alone, joined by one blank line;
+						// pages without text contribute nothing, not even a separator
+						if st.Op == "text" {
+							var optsOnly config
+							key, excl := "", false
+							for _, cl := range cf.calls {
+								if cl.Kind == "opt" {
+									optsOnly.calls = append(optsOnly.calls, cl)
+									key += cl.Opt + ","
+									excl = excl || strings.HasPrefix(cl.Opt, "Exclude")
+								}
+							}
+							if !excl {
+								var parts []string
+								for _, p := range sel {
+									k := fmt.Sprintf("%s%d", key, p)
+									if _, ok := pageText[k]; !ok {
+										one := config{calls: append(append([]Call{}, optsOnly.calls...), Call{Kind: "pages", List: []int{p}})}
+										pt, _, perr := fresh(path, one).Text()
+										if perr != nil {
+											return fmt.Errorf("%s: Text() of page %d alone failed: %v", where, p, perr)
+										}
+										pageText[k] = pt
+									}
+									if pageText[k] != "" {
+										parts = append(parts, pageText[k])
+									}
+								}
+								if want := strings.Join(parts, "\n\n"); got.Value.(string) != want {
+									return fmt.Errorf("%s (config %+v, blank pages %v): Text() of the selection %v is not the per-page texts joined by a blank line:\n got  %q\n want %q", where, cf.calls, c.Blank, sel, got.Value, want)
+								}
+							}
 						}
 					}
 				}
@@ -567,6 +640,13 @@ func genCall(t *rapid.T, n int) Call {
 func genCase(t *rapid.T) Case {
 	c := Case{NPages: rapid.IntRange(1, 8).Draw(t, "npages")}
 	c.File = rapid.SampledFrom([]string{"ok", "ok", "ok", "ok", "ok", "ok", "missing", "truncated", "wrongext"}).Draw(t, "file")
+	if c.NPages >= 2 && rapid.IntRange(0, 2).Draw(t, "hasBlank") == 0 {
+		for p := 1; p <= c.NPages; p++ {
+			if rapid.IntRange(0, 2).Draw(t, "blank") == 0 && len(c.Blank) < c.NPages-1 {
+				c.Blank = append(c.Blank, p)
+			}
+		}
+	}
 	if rapid.IntRange(0, 2).Draw(t, "family") == 0 {
 		// a family: one parent that already selected a range, several children derived from it one after the
 		// other, and only then operations on all of them (siblings must not see each other's selections)
@@ -654,6 +734,12 @@ func meta(c Case) vr.Meta {
 	}
 	if c.File != "ok" {
 		nt = true
+	}
+	if len(c.Blank) > 0 {
+		labels = append(labels, "blank-pages")
+		if c.Blank[0] == 1 {
+			labels = append(labels, "blank-first-page")
+		}
 	}
 	seen := map[string]bool{}
 	var uniq []string
